@@ -236,3 +236,46 @@ reg("C11", "scenario = nested packages with experiments and non-archivable tasks
     "the documented selection, identical ids / commit / dirty flag, each restored tree (names, types, contents, "
     "link targets) == the source tree at archive time, source project untouched by archive. distinct = distinct "
     "(shape, digest); non-trivial = an archive with >= 1 version was created or round-tripped", quick_count=600)
+reg("C13", "scenario = project + runs that succeed / fail / are aborted by a signal / killed, archive + restore "
+    "(also killed midway or with a missing member, leaving staging leftovers), manual additions (stray files, "
+    "plain directories, unrecorded look-alike <name>.task.<n> directories at several depths, look-alikes nested "
+    "inside run_command and experiment outputs, a symbolic link to a directory outside cond-out that holds "
+    "look-alikes, a symbolic link named like a version), then cond gc [-n] [-v]; oracle: deletion set computed "
+    "independently from the pre-gc tree and the index == disk diff (everything else byte-identical, nothing "
+    "outside touched) == printed list. distinct = distinct (shape, digest); non-trivial = a gc was executed",
+    quick_count=800)
+reg("C18", GEN_TXT + "graphs always contain combine tasks over dependencies of every kind (experiment, command, "
+    "group, combine) in nested packages; histories re-run with --again so new versions appear; an unrelated file "
+    "or directory is sometimes planted where a link must go. Oracle: every entry resolves to the directory the "
+    "dependency wrote / had selected in this invocation; planted entries make the run fail and stay untouched. "
+    "distinct = distinct (shape, digest); non-trivial = a combine step was executed", quick_count=1200)
+
+
+class C17Prop(Prop):
+    def execute(self, scn, seed, plans=None):
+        import json as _json
+
+        ref_scn = _json.loads(_json.dumps(scn))
+        for op in ref_scn["history"]:
+            if "cwd" in op:
+                op["cwd"] = ""
+        ref = runner.execute(ref_scn, seed, plans, keep=True)
+        try:
+            run = runner.execute(scn, seed, plans, keep=True)
+        except BaseException:
+            runner._safe_rmtree(ref.work)
+            raise
+        run.ref = ref
+        run.extra_work = [ref.work]
+        return run
+
+
+PROPS["C17"] = C17Prop(
+    "C17", profiles.GEN["C17"], oracles.CHECKS["C17"],
+    "scenario = project + history mixing run / where / gc / archive / restore / clean with every flag "
+    "combination; the whole history is executed twice under the same seed and schedule - once with every command "
+    "started in the project root, once with each command started in a drawn directory (package directory, directory "
+    "without COND, cond-out, a package directory inside cond-out, a task output directory) - and exit status, "
+    "resulting cond-out (rows + trees) and printed locations (resolved against the respective cwd) are compared. "
+    "distinct = distinct (shape, digest); non-trivial = a command was compared from a non-root directory",
+    quick_count=700)
